@@ -750,8 +750,9 @@ class Rinex3NavParser(ChainParser):
         # TODO: It is only a workaround. This should be done before generating a TimeObject!!!! Use 28.02.2016 as check.
         # TODO: Is it necessary for toe? Or is toe always refered to current GPS week?
         for field in ["toe", "transmission_time"]:
-            week = self.data[field].gps_ws.week
-            gpssec = self.data[field].gps_ws.seconds
+            # Copies: the arrays of the (cached) gps_ws conversion must not be changed in place
+            week = self.data[field].gps_ws.week.copy()
+            gpssec = self.data[field].gps_ws.seconds.copy()
             # Difference to navigation epoch in seconds (GPS week of both epochs is taken into account). Each
             # navigation record is handled on its own: a file can include week crossovers in both directions.
             toc = self.data["time"].gps_ws
